@@ -238,7 +238,7 @@ func (cc ConcCase) norm() ConcCase {
 func genConc(t *rapid.T) *ConcCase {
 	cc := ConcCase{
 		Kind:   rapid.SampledFrom([]string{"both-formats", "both-formats", "mixed", "mixed", "same-compressed", "same-uncompressed"}).Draw(t, "conc.kind"),
-		Rounds: rapid.IntRange(hx.Pick(8, 40), hx.Pick(20, 120)).Draw(t, "conc.rounds"),
+		Rounds: rapid.IntRange(hx.Pick(6, 40), hx.Pick(12, 120)).Draw(t, "conc.rounds"),
 		LenKiB: rapid.SampledFrom(hx.Pick([]int{16, 64, 128, 256, 512}, []int{16, 128, 256, 512, 1024})).Draw(t, "conc.len"),
 		Spin:   rapid.IntRange(0, 16).Draw(t, "conc.spin"),
 	}.norm()
